@@ -404,6 +404,17 @@ impl GlobalInferenceCtx<'_> {
         }
         let expr_body = expr_body.clone();
 
+        // the value of an index or member expression comes out of memory that already has a
+        // type of its own (`arr := .[1, 2, 3]; x : u8 = arr[1];`, the elements of `arr` are
+        // `{uint}`s), so the expression keeps its type and gets cast like any other value.
+        // (a generic function that is named through a file, `other_file.foo`, is the exception:
+        // it only gets its actual type once the arguments of the call are known)
+        if matches!(expr_body, Expr::Index { .. } | Expr::Member { .. })
+            && !matches!(found_ty.as_ref(), Ty::NaivePolymorphicFunction { .. })
+        {
+            return false;
+        }
+
         self.tys[self.loc].expr_tys.insert(expr, new_ty);
 
         match expr_body {
